@@ -55,7 +55,7 @@ def make_case(seed, prop, flip_p=None):
             'layout': None if rng.chance(0.5) else rng.randrange(1 << 32), 'prompt': True, 'refuse_at': None}
     p_file = rng.pick([0.0, 0.3, 0.7, 1.0])
     case['file'] = [q for q in D if rng.chance(p_file)]
-    if rng.chance(0.12):
+    if rng.chance(0.3 if prop == 'C09' else 0.12):
         # stray sections: inputs of an instanced form also given under the un-instanced section name (nobody reads those)
         for q in D:
             form, inst, b = shipped.split_name(q)
@@ -248,6 +248,8 @@ def evaluate_group(case, acc=None):
         for f in shipped.judge(case['persona'], run, r1):
             if f['oracle'] in ('C05.model', 'P1'):
                 fs.append(dict(f, property='C05', msg=f'variant {tag}: ' + f['msg']))
+            elif f['oracle'] == 'C03.model':
+                fs.append(dict(f, property='C05', oracle='C05.values', msg=f'variant {tag}: ' + f['msg']))
         if (run.outcome == 'abort') != (r1.verdict == 'abort'):
             fs.append(F('C05', 'C05.abort', 'abort-ness', f'variant {tag}: run {run.outcome} {run.exc}, model {r1.verdict} {r1.summary()["aborts"]}'))
     by_inputs = {}
